@@ -60,6 +60,9 @@ def parseReply (toks : List String) : Option ReplyKind :=
     -- an optional 8th field: the report's source address as an IPv4 word (the daemon never reads it)
     | [leap, ref, off, disp, delay, iv, refid, _ip4] =>
       if ref < 0 then none else some (.tracking (mkTracking leap ref off disp delay iv refid))
+    -- an optional 9th field: the stratum chronyd reports for itself (the daemon never reads it)
+    | [leap, ref, off, disp, delay, iv, refid, _ip4, _stratum] =>
+      if ref < 0 then none else some (.tracking (mkTracking leap ref off disp delay iv refid))
     | _ => none
   | _ => none
 
